@@ -403,6 +403,8 @@ func (r *rw) selectStmt(s *ast.SelectStmt) ast.Stmt {
 		clauses = append(clauses, &ast.CaseClause{List: []ast.Expr{&ast.BasicLit{Kind: token.INT, Value: strconv.Itoa(idx)}}, Body: append(pre, cc.Body...)})
 		idx++
 	}
+	// keep the construct a terminating statement whenever the select was one
+	clauses = append(clauses, &ast.CaseClause{Body: []ast.Stmt{&ast.ExprStmt{X: &ast.CallExpr{Fun: ast.NewIdent("panic"), Args: []ast.Expr{&ast.BasicLit{Kind: token.STRING, Value: `"simrt: impossible select index"`}}}}}})
 	hd := "false"
 	if hasDefault {
 		hd = "true"
